@@ -13,6 +13,8 @@ Arguments ORet {R} r. Arguments OFail {R}. Arguments OFuel {R}.
 
 (* observable outcome of a translated function (coq/common/Ctl.v) *)
 Require Import QV.common.Ctl.
+Require Export QV.C14.Spec.
+Open Scope Z_scope.
 Definition out_of {R S} (c : ctl R S) : outcome R :=
   match c with Ret r => ORet r | Next _ => OFail | Fail => OFail | OutOfFuel => OFuel end.
 
@@ -118,112 +120,19 @@ Definition approximate_rational_n (fuel : nat) (xp xq dp dq : Z) : outcome (Z * 
        end.
 
 (* ------------------------------------------------------------------------------------------------------------ *)
-(* brute-force specification: the fraction with the smallest denominator strictly inside (x - e, x + e) *)
+(* TimeType operator wrappers: the converted operands go to gmpy2.mpq (trusted exact), i.e. the specification's
+   operation on the values the conversion produced (Spec.v: arith_value / cmp_value) *)
 Open Scope Q_scope.
-Definition in_open (x e r : Q) : Prop := x - e < r /\ r < x + e.
-Definition in_openb (x e r : Q) : bool := negb (Qle_bool r (x - e)) && negb (Qle_bool (x + e) r).
-
-(* smallest numerator p with p/q > lo *)
-Definition first_above (lo : Q) (q : positive) : Z := (Qfloor (lo * (Zpos q # 1)) + 1)%Z.
-Fixpoint brute_from (x e : Q) (q : positive) (fuel : nat) : option Q :=
-  match fuel with
-  | O => None
-  | S f => let p := first_above (x - e) q in
-           if in_openb x e (p # q) then Some (p # q) else brute_from x e (Pos.succ q) f
-  end.
-Definition brute (x e : Q) (fuel : nat) : option Q := brute_from x e 1%positive fuel.
-
-(* ------------------------------------------------------------------------------------------------------------ *)
-(* TimeType operator table.  Operands: a time value / int / fraction carry one exact rational; a float carries its
-   exact binary value and the value of its shortest decimal representation (repr), both supplied exactly. *)
-Inductive operand := OTime (q : Q) | OInt (z : Z) | OFrac (q : Q) | OFloat (exact dec : Q).
-
-Definition arith_value (o : operand) : Q :=      (* value used by + - * / // % ** *)
-  match o with OTime q => q | OInt z => inject_Z z | OFrac q => q | OFloat _ d => d end.
-Definition cmp_value (o : operand) : Q :=        (* value used by < <= > >= == *)
-  match o with OTime q => q | OInt z => inject_Z z | OFrac q => q | OFloat e _ => e end.
-
-Inductive binop := Add | Sub | Mul | Div | FloorDiv | Mod | Pow.
-Inductive cmpop := CLt | CLe | CGt | CGe | CEq | CNe.
-Inductive unop := Neg | Abs | Floor | Ceil | Trunc | RoundHalfEven | Pos.
-
-Definition Qfloordiv (a b : Q) : Z := Qfloor (a / b).
-Definition Qmod (a b : Q) : Q := a - inject_Z (Qfloordiv a b) * b.
-Definition Qpow_Z (a : Q) (n : Z) : Q := Qpower a n.
-Definition Qtrunc (a : Q) : Z := if Qle_bool 0 a then Qfloor a else Qceiling a.
-(* Python round(): nearest, ties to even *)
-Definition Qround_half_even (a : Q) : Z :=
-  let f := Qfloor a in
-  let r := a - inject_Z f in
-  match Qcompare r (1 # 2) with
-  | Lt => f
-  | Gt => (f + 1)%Z
-  | Eq => if Z.even f then f else (f + 1)%Z
-  end.
-
-Definition is_zero (q : Q) : bool := Qeq_bool q 0.
-
-(* result of `a op b`: None = ZeroDivisionError *)
-Definition binop_eval (op : binop) (a b : Q) : option Q :=
-  match op with
-  | Add => Some (a + b)
-  | Sub => Some (a - b)
-  | Mul => Some (a * b)
-  | Div => if is_zero b then None else Some (a / b)
-  | FloorDiv => if is_zero b then None else Some (inject_Z (Qfloordiv a b))
-  | Mod => if is_zero b then None else Some (Qmod a b)
-  | Pow => (* only integer exponents are generated *)
-      let n := Qfloor b in
-      if is_zero a && (n <? 0)%Z then None else Some (Qpow_Z a n)
-  end.
-
 (* `x op y` where at least one side is a time value; `swap` = the time value is the right operand *)
 Definition time_binop (op : binop) (t : Q) (other : operand) (swap : bool) : option Q :=
   if swap then binop_eval op (arith_value other) t else binop_eval op t (arith_value other).
 
-Definition cmp_eval (op : cmpop) (a b : Q) : bool :=
-  match op with
-  | CLt => negb (Qle_bool b a)
-  | CLe => Qle_bool a b
-  | CGt => negb (Qle_bool a b)
-  | CGe => Qle_bool b a
-  | CEq => Qeq_bool a b
-  | CNe => negb (Qeq_bool a b)
-  end.
 Definition time_cmp (op : cmpop) (t : Q) (other : operand) (swap : bool) : bool :=
   if swap then cmp_eval op (cmp_value other) t else cmp_eval op t (cmp_value other).
 
-(* all six comparisons of one pair (round 4) *)
-Record cmp6 := mkCmp6 { c_lt : bool; c_le : bool; c_gt : bool; c_ge : bool; c_eq : bool; c_ne : bool }.
-Definition cmp6_of (a b : Q) : cmp6 :=
-  mkCmp6 (cmp_eval CLt a b) (cmp_eval CLe a b) (cmp_eval CGt a b) (cmp_eval CGe a b) (cmp_eval CEq a b) (cmp_eval CNe a b).
 Definition time_cmp6 (t : Q) (other : operand) (swap : bool) : cmp6 :=
   mkCmp6 (time_cmp CLt t other swap) (time_cmp CLe t other swap) (time_cmp CGt t other swap) (time_cmp CGe t other swap)
          (time_cmp CEq t other swap) (time_cmp CNe t other swap).
-(* laws that do not mention any value *)
-Definition exactly_one (a b c : bool) : bool := (a && negb b && negb c) || (negb a && b && negb c) || (negb a && negb b && c).
-Definition cmp6_consistent (c : cmp6) : bool :=
-  exactly_one (c_lt c) (c_eq c) (c_gt c) && Bool.eqb (c_le c) (c_lt c || c_eq c) && Bool.eqb (c_ge c) (c_gt c || c_eq c)
-  && Bool.eqb (c_ne c) (negb (c_eq c)).
-Definition cmp6_mirror (f r : cmp6) : bool :=
-  Bool.eqb (c_lt r) (c_gt f) && Bool.eqb (c_gt r) (c_lt f) && Bool.eqb (c_le r) (c_ge f) && Bool.eqb (c_ge r) (c_le f)
-  && Bool.eqb (c_eq r) (c_eq f) && Bool.eqb (c_ne r) (c_ne f).
-
-Definition unop_eval (op : unop) (a : Q) : Q :=
-  match op with
-  | Neg => - a
-  | Abs => Qabs a
-  | Floor => inject_Z (Qfloor a)
-  | Ceil => inject_Z (Qceiling a)
-  | Trunc => inject_Z (Qtrunc a)
-  | RoundHalfEven => inject_Z (Qround_half_even a)
-  | Pos => a
-  end.
-
-(* decimal literal  (-1)^neg * mant * 10^exp  — the parsed form of repr(float) *)
-Definition pow10 (e : Z) : Q := Qpower (10 # 1) e.
-Definition parse_decimal (neg : bool) (mant : Z) (exp : Z) : Q :=
-  (if neg then -1 else 1) * inject_Z mant * pow10 exp.
 
 (* from_float: mode None = shortest decimal, mode 0 = exact binary value, 0 < tol <= 1 = approximate_rational *)
 Inductive ff_mode := FFDecimal | FFExact | FFTol (tol_exact : Q).
